@@ -395,6 +395,35 @@ def body(ck):
             viol("C15/SquashedMultivariateNormalDiag/support", "sample or mode outside [low, high]", j)
         add(f"DProd {listl(fl(c) for c in list(comp) + list(comp))} {fl(list(lpy) + list(lps))} [] None", j, ("sqmvn", tuple(mu.tolist()), tuple(lo.tolist())) if k > 1 else None)
 
+    # ---- edge of the support: lower bound 0 (floats resolve values down to 1e-38 next to it) and a base mean far towards that bound,
+    #      as with a saturated actor: the samples are tiny but strictly inside, and sample_and_log_prob must still report exactly
+    #      the log-density that log_prob assigns to the returned sample (scalar and product law)
+    for t in range(4 if quick else 16):
+        k = int(rng.integers(1, 4))
+        # far enough for sigmoid(loc) to lie well below the machine epsilon of the dtype in use, far from underflow
+        far = (42, 60) if jax.config.jax_enable_x64 else (16, 24)
+        mu = -np.round(rng.uniform(*far, size=k), 2)
+        sg = np.round(rng.uniform(0.3, 0.8, size=k), 2)
+        lo = np.zeros(k); hi = np.asarray([float(rng.choice([1.0, 5.0, 0.5])) for _ in range(k)])
+        keys = jr.split(jr.key(int(rng.integers(2 ** 31))), nkeys)
+        ck.current_case = {"component": "Squashed*/edge-of-support", "loc": mu.tolist(), "scale": sg.tolist(), "low": lo.tolist(), "high": hi.tolist()}
+        dists = [("SquashedNormal", SquashedNormal(jnp.asarray(mu[0]), jnp.asarray(sg[0]), high=jnp.asarray(hi[0]), low=jnp.asarray(lo[0]))),
+                 ("SquashedMultivariateNormalDiag", SquashedMultivariateNormalDiag(jnp.asarray(mu), jnp.asarray(sg), high=jnp.asarray(hi), low=jnp.asarray(lo)))]
+        for cname, d in dists:
+            ys, lps = map(np.asarray, jax.vmap(d.sample_and_log_prob)(keys))
+            lpy = np.asarray(jax.vmap(d.log_prob)(jnp.asarray(ys)))
+            ck.evaluations += len(keys); ck.count("edge-of-support-samples", len(keys))
+            ck.case_seen(("edge", cname, t))
+            inside = np.all(ys > 0) and np.all(np.isfinite(lps)) and np.all(np.isfinite(lpy))
+            if not inside:
+                continue        # underflow to the bound itself: outside the regime this probe is about
+            gap = float(np.max(np.abs(lps - lpy)))
+            if gap > 1e-2:
+                viol(f"C15/{cname}/sample_and_log_prob-vs-log_prob", f"sample_and_log_prob reports a log-probability that differs by {gap:.3g} nats from log_prob of the sample it returns "
+                     "(samples close to the lower bound 0)",
+                     {"component": cname, "loc": mu.tolist(), "scale": sg.tolist(), "low": lo.tolist(), "high": hi.tolist(),
+                      "impl_samples": ys[:6].tolist(), "impl_reported_log_probs": lps[:6].tolist(), "impl_log_prob_of_samples": lpy[:6].tolist()})
+
     # ------------------------------------------------------------------ numerical exploration (search, not proof)
     explore = {}
     N = 4000 if quick else 40000
